@@ -35,6 +35,25 @@ class Budget(Exception):
     pass
 
 
+class CallTimeout(Exception):
+    pass
+
+
+def with_alarm(seconds, f, *a):
+    """run f(*a) in the main thread under a wall-clock limit (count()'s search loops are unbounded)"""
+    import signal
+
+    def onalarm(signum, frame):
+        raise CallTimeout()
+    old = signal.signal(signal.SIGALRM, onalarm)
+    signal.setitimer(signal.ITIMER_REAL, seconds)
+    try:
+        return f(*a)
+    finally:
+        signal.setitimer(signal.ITIMER_REAL, 0)
+        signal.signal(signal.SIGALRM, old)
+
+
 def _dbg(*a):
     import os, sys
     if os.environ.get("VERIF_DEBUG"):
@@ -502,11 +521,19 @@ def run(run):
             for needle in nts[: 3]:
                 more = any(P.reachable(graph, s.value, needle) for _, s in t.open_leaves())
                 for tgt in [None, -1, 0, 1, 2, 3, 4]:
+                    if chist.get("timeout", 0) >= 3:
+                        continue  # the implementation hangs: already reported, do not spend 30 s per call
                     num = Constant("n", "<start>") if tgt is None else DerivationTree(str(tgt), ())
                     st = random.getstate()
                     random.seed(rng.randrange(1 << 30))
                     try:
-                        out = P.COUNT_PREDICATE.evaluate(graph, t, needle, num).result
+                        out = with_alarm(30, P.COUNT_PREDICATE.evaluate, graph, t, needle, num).result
+                    except CallTimeout:
+                        chist["timeout"] = chist.get("timeout", 0) + 1
+                        disagreements.append({"what": "count did not return within 30 s", "grammar": cg,
+                                              "tree": tree_json(t), "needle": needle, "target": tgt,
+                                              "spec_fail": False})
+                        continue
                     except Exception as e:  # noqa
                         out = e
                     finally:
